@@ -297,7 +297,14 @@ def execute_here(plan, keep_events=False):
                     'op': kind, 'exc': type(e).__name__,
                     'msg': str(e)[:200], 'history': hist})
                 break
-            bad = compare(model, obj, cur, noises, sim)
+            try:
+                bad = compare(model, obj, cur, noises, sim)
+            except HarnessError:
+                raise
+            except Exception as e:
+                # the object itself raises when asked for its operators
+                bad = {'class': 'object_unusable_after_operation',
+                       'exc': type(e).__name__, 'msg': str(e)[:160]}
             n_checks[0] += 1
             if bad:
                 bad['history'] = hist[-4:]
